@@ -218,7 +218,7 @@ def _shard(args):
                 boost = [s_ for s_ in specs if changed and (s_ in changed or (call_closure([s_])[0] & changed))] \
                     if scale > 1 else []
                 big = 10.0 if (tier == 'thorough' or scale > 1) else 1.0
-                forms.check(ctx, specs, 2 if tier != 'thorough' else 20, ctx.rng.__class__(ctx.rng.random()),
+                forms.check(ctx, specs, 5 if tier != 'thorough' else 50, ctx.rng.__class__(ctx.rng.random()),
                             shard, nshards, budget_s=3.0 * big, boost=boost)
             except Exception:      # noqa: an extra; it must never turn a check into an infrastructure error
                 ctx.notes.append('argument forms: not run (%s)' % traceback.format_exc().strip().split('\n')[-1][:200])
